@@ -374,6 +374,36 @@ def run(ctx):
     c02.queue_traces(ctx, wdq, True, 'C01', 120 if ctx.quick else 2500, 50 if ctx.quick else 80, with_modes=False)
     ctx.assumptions += ['boot context: custom code loaded after init_phase_3 and a handler of init_phase_5', 'handlers are plain functions or, on the queue-event path, '
                         'coroutines; waiting/completion of queue events is judged by C02']
+    suite_traces(ctx, wd)
+
+
+def suite_traces(ctx, wd, modules=None):
+    """The repository's own tests as trace sources: every event cascade of every machine they boot (cut into segments
+    between quiescent points by lib/suite_rec.py) must be a behaviour of EventBus (EventBusSuiteTrace)."""
+    from lib import suite
+    mods = modules or (suite.QUICK_MODULES if ctx.quick else suite.all_modules())
+    segs, st = suite.record(ctx, mods, 'bus')
+    ctx.log('suite recorder: %d modules, %d segments (%d distinct, %d lines), tainted %s' % (
+        st.get('modules', 0), st.get('segments', 0), len(segs), sum(len(t['ev']) for t in segs),
+        {k: v for k, v in st.items() if k.startswith('tainted')}))
+    if not segs or st.get('segments', 0) < 1000 * min(1, len(mods) // 10):
+        raise tlc.TLCError('suite recorder produced no / too few segments: %s' % {k: v for k, v in st.items() if k != 'module_results'})
+    with open(wd + '/Suite.cfg', 'w') as f:
+        f.write(cfg_text('TSpec', '{}', '{}', 10 ** 6, 10 ** 6, '{}', '{}', '{}', 'DefaultCondSet', '{}', invs=False, trace=True))
+    v = tlc.validate_traces(wd, 'EventBusSuiteTrace', 'Suite.cfg', segs, workers=8, batch=3000)
+    ctx.add_trace_verdict('EventBusSuiteTrace (segments recorded from the repository tests)', v, len(segs))
+    ctx.coverage['suite'] = {k: v2 for k, v2 in st.items() if k != 'module_results'}
+    ctx.coverage['suite']['executions_recorded'] = st.get('segments', 0)
+    ctx.sample({'kind': 'suite-segment', 'src': segs[0]['_src'], 'reg0': segs[0]['reg0'][:6], 'trace': segs[0]['ev'][:14]})
+    if v.rejected:
+        tlc.finish_diagnosis(wd, 'EventBusSuiteTrace', 'Suite.cfg', segs, v)
+        for i, info in sorted(v.rejected.items()):
+            fe = info.get('failing_event') or {}
+            pe = info.get('prev_event') or {}
+            ctx.violation('C01:suite:%s-after-%s' % (fe.get('op', 'end'), pe.get('op', 'start')),
+                          'event cascade recorded from %s is not a behaviour of EventBus at line %s: %s (prev %s)' % (
+                              segs[i]['_src'], info.get('line'), fe, pe),
+                          {'kind': 'suite', 'src': segs[i]['_src'], 'trace': {k: v2 for k, v2 in segs[i].items()}, 'info': info})
 
 
 def replay(ctx, data):
@@ -381,6 +411,9 @@ def replay(ctx, data):
     if d.get('kind') == 'queue':
         from drivers import c02
         return c02.replay(ctx, data)
+    if d.get('kind') == 'suite':
+        wd = tlc.prepare(ctx.scratch, 'EventBus', 'eventbus')
+        return suite_traces(ctx, wd, modules=[d['src'].split('::')[0].split('/')[-1][:-3]])
     tr = exec_schedule(tuple(d['job']))
     print('replay trace:', tr['ev'])
     wd = tlc.prepare(ctx.scratch, 'EventBus', 'eventbus')
